@@ -28,6 +28,7 @@ def syntactic_tags(prog: dict) -> list:
     tree treats X as a run-time value; after it, the transpile-time length is stale)."""
     tags = []
     muts, lens = [], []            # (name, kind, path) / (name, path); path = tuple of block numbers from the root
+    bound: dict = {}               # name -> [is this binding a list literal with a sensor element?]
     counter = [0]
 
     def expr(e, path):
@@ -44,6 +45,12 @@ def syntactic_tags(prog: dict) -> list:
         for st in b:
             if st["k"] in ("append", "remove", "assign", "aug"):
                 muts.append((st["n"], st["k"], path))
+            if st["k"] in ("assign", "aug"):
+                e = st["e"]
+                bound.setdefault(st["n"], []).append(st["k"] == "assign" and e.get("k") == "list" and any(x.get("k") == "aread" for x in e["es"]))
+            if st["k"] == "tuple":
+                for n in st["ns"]:
+                    bound.setdefault(n, []).append(False)
             expr({k: v for k, v in st.items() if k not in ("body", "orelse", "branches")}, path)
             counter[0] += 1
             node = counter[0]                      # arms of one if / elif / else chain share the node number
@@ -69,7 +76,12 @@ def syntactic_tags(prog: dict) -> list:
             return x[0] == y[0] and x[1] != y[1]
         return False
 
+    # a list whose every binding is a literal with an element read from a sensor has no transpile-time length: the finding
+    # (a length folded at transpile time) does not apply to it (Lang!hr)
+    runtime_lists = {n for n, lits in bound.items() if lits and all(lits)}
     for name, lpath in lens:
+        if name in runtime_lists:
+            continue
         for mname, kind, mpath in muts:
             if mname != name or not mpath:
                 continue
